@@ -577,6 +577,31 @@ def scenarios(pid, tier):
             out.append(S(ct, ["req:a:pt=0"], max_connections=1, early=e))
             out.append(S(ct, ["hold:a", "req:a:pt=0"], max_connections=1, early=e))
             out.append(S(ct, ["hold:a", "req:b:pt=5", "req:a:pt=3"], max_connections=2, early=e))
+    if pid == "C12":
+        W = "req:a:w"
+        base = ["h2pk"] if quick else ["h2pk", "h2alpn", "tunnel-h2"]
+        for ct in base:
+            # frame interleavings: HEADERS / DATA / END_STREAM of concurrent streams in every order
+            out.append(S(ct, [W, "req:a", "req:a"], max_connections=1, h2script={"frag": 2}, early=False))
+            out.append(S(ct, [W, "req:a", "req:a", "req:a"], max_connections=1, h2script={"frag": 1}, early=False))
+            # limit changes at any time: lowering below the number in flight, raising
+            out.append(S(ct, [W, "req:a", "req:a"], max_connections=1, h2cfg={"max_streams": 2}, h2script={"settings": [1]}, early=False))
+            out.append(S(ct, [W, "req:a", "req:a", "req:a"], max_connections=1, h2cfg={"max_streams": 1}, h2script={"settings": [3]}, early=False))
+            out.append(S(ct, [W, "req:a", "req:a"], max_connections=1, h2cfg={"max_streams": 2}, h2script={"settings": [1, 2]}, early=False))
+            if not quick:
+                out.append(S(ct, [W, "req:a", "req:a", "req:a"], max_connections=1, h2cfg={"max_streams": 3}, h2script={"settings": [1]}, early=False))
+                out.append(S(ct, [W, "req:a", "req:a", "req:a"], max_connections=1, h2cfg={"max_streams": 3}, h2script={"settings": [2]}, early=False))
+            # resets and abandonment of individual streams
+            out.append(S(ct, [W, "req:a", "req:a"] + ([] if quick else ["req:a"]), max_connections=1, h2cfg={"max_streams": 2}, h2script={"rst": 1}, early=False))
+            out.append(S(ct, [W, "early:a", "req:a", "req:a"], max_connections=1, h2cfg={"max_streams": 2}, h2script={}, early=False))
+            out.append(S(ct, [W, "early:a", "req:a"], max_connections=1, h2cfg={"max_streams": 1}, h2script={}, early=False))
+            # before the first SETTINGS arrive: one stream only
+            out.append(S(ct, ["req:a", "req:a", "req:a"], max_connections=1, h2cfg={"max_streams": None, "auto_settings": False}, h2script={"settings": [2]}, early=False))
+            out.append(S(ct, [W, "req:a", "req:a"], max_connections=1, h2script={"ping": 1, "frag": 2}, early=False))
+            if not quick:
+                out.append(S(ct, [W, "req:a", "req:a", "req:a"], max_connections=1, h2script={"frag": 2}, early=False))
+                out.append(S(ct, [W, "req:a", "req:a", "req:a", "req:a"], max_connections=1, h2cfg={"max_streams": 3}, h2script={"settings": [1], "rst": 1}, early=False))
+                out.append(S(ct, [W, "req:a", "req:a"], max_connections=1, h2script={"frag": 2}, early=True))
     if pid == "C02":
         # HTTP/2: DATA of one stream arriving in reads made on behalf of another (multiplexed responses in two
         # fragments each; a download's DATA arriving while an upload waits for flow-control credit)
